@@ -135,7 +135,28 @@ def mutate_tuples(rng, toks, kinds=None):
     return toks
 
 
+def gen_ih_auto_leaf(rng):
+    """leaves that are automatic integer indices (labels are positions, no label map) of different sizes: a label held by one
+    leaf is absent from a shorter one; probes name such labels, labels one past a leaf, and negative integers"""
+    toks, kinds = ic.auto_leaf_tuples(rng)
+    tups = [untok(t) for t in toks]
+    sizes = {}
+    for o, i in tups:
+        sizes[H(o)] = (o, i + 1)
+    probes = []
+    big = max(n for _, n in sizes.values())
+    for o, n in sizes.values():
+        probes += [tok((o, n)), tok((o, -1))]
+        if n < big:
+            probes.append(tok((o, big - 1)))
+    probes += ih_probes(toks, kinds)
+    return {'k': 'ih', 'toks': toks, 'kinds': kinds, 'route': rng.choice(['from_index_items_auto', 'concat_items_auto']),
+            'go': rng.random() < 0.3, 'probes': probes}
+
+
 def gen_ih(rng):
+    if rng.random() < 0.1:
+        return gen_ih_auto_leaf(rng)
     depth = rng.choice([2, 2, 3, 3, 4])
     toks, kinds = ic.rand_tree_tuples(rng, depth, max_fan=3, max_leaves=rng.choice([1, 3, 6, 10]))
     bad = rng.random() < 0.25
@@ -1012,6 +1033,8 @@ def eval_ih(ctx, c, outs):
     if route == 'from_product' and not (valid and tups and ic.is_product(hts)):
         route = 'from_labels'
     if route == 'from_index_items' and not (valid and tups and len(tups[0]) == 2):
+        route = 'from_labels'
+    if route in ('from_index_items_auto', 'concat_items_auto') and not (valid and ic.is_auto_leaf(tups)):
         route = 'from_labels'
     if route in ('from_tree', 'copy_ctor') and not (valid and tups):
         route = 'from_labels'
